@@ -1,0 +1,11 @@
+//go:build go1.18
+// +build go1.18
+
+package parse
+
+import "go/ast"
+
+// hasTypeParams reports whether a function type declares type parameters.
+func hasTypeParams(ft *ast.FuncType) bool {
+	return ft.TypeParams != nil && len(ft.TypeParams.List) > 0
+}
